@@ -20,6 +20,10 @@ LEVEL = "proof"
 KNOWN_SIG = "wal/corrupt/type-byte"
 
 
+STALE_SCENARIO = ["WC 4096 nil", "WS 1 1 0 6 0 1 1 nil 0 1 2 nil 0 1 3 nil 0 1 4 nil 0 1 5 nil 0 1 6 nil", "WS 2 2 2 2 0 2 3 nil 0 2 4 nil",
+                  "WN 4 2 3", "WX"]
+
+
 def hxn(b):
     return "nil" if b is None else core.hx(b)
 
@@ -128,6 +132,10 @@ def plan(R):
     # a fixed small scenario that always contains the records of the known finding (entry and state records next to each other)
     lines += ["WC 4096 6d657461", "WS 1 1 0 2 0 1 1 616263 0 1 2 nil", "WS 1 1 2 0", "WN 2 1 3", "WS 2 0 2 1 0 2 3 00000000",
               "WS 0 0 0 1 0 2 4 7a", "WX", "WM torn 6 8 1", "WM byte 4000 1 64"]
+    # a conflict truncation below a later snapshot (Lean: C16.readAll_entries_stale): entries 1..6 of term 1, a new leader overwrites 3, 4
+    # (term 2), index 4 is snapshotted; opened at (4, 2) ReadAll skips the records of 3', 4' and keeps the overwritten 5, 6 - model and real
+    # code must agree on that too (the byte cases of the last snapshot read the log at (4, 2))
+    lines += STALE_SCENARIO + ["WM byte 100 512 2000"]
     # snapshot files
     for k in range(2 if R.tier == "quick" else 4):
         lines.append("SN")
@@ -203,6 +211,12 @@ def run(R, ctx):
             offcls[[x for x in f if x.startswith("cls=")][0][4:]] += 1
         if kv.get("oracle", "ok") != "ok":
             viol.append((scen_id, l))
+    # what the real code returns for the stale-suffix scenario (last scenario before the snapshot files), read at the snapshot (4, 2) / at (0, 0)
+    first = next((i for i, l in enumerate(obs) if l.startswith(STALE_SCENARIO[1] + " =>")), len(obs))
+    stale = [l for l in obs[first:] if l.startswith("WB ") and " cls=z " in l]
+    at42 = sorted(set(l.split("rd=")[1].split()[0] for l in stale if l.split()[5:7] == ["4", "2"] and "rd=ok" in l))
+    R.extra["stale_suffix_scenario"] = dict(lean="C16.readAll_entries_stale", read_mode_at_snapshot_4_2=at42[:4],
+                                            note="rd=ok/<meta>/<hardstate>/<number of entries>/<digest>: 2 entries = the overwritten entries 5, 6 of term 1")
     R.add_cases(len(cases), int(d["summary"].get("positive", 0)), samples=[ops[1][:300], cases[0][:300], cases[len(cases) // 2][:300], cases[-1][:300]])
     names = dict(h="frame length field", g="protobuf tag", t="record type", c="crc field", l="data length varint", d="data", p="padding", z="zero tail")
     R.extra["enumeration"] = dict(
